@@ -2,7 +2,7 @@
 """Install file-targeted round-3 deliverables (/tmp/wt4/out/<F>/x<k>.*) as seeded/<Cnn>-m<next>/ by the property named on the first line of x<k>.md."""
 import os, re, shutil, sys
 for grp in sys.argv[1:]:
-    src = "/tmp/wt4/out/" + grp
+    src = ("/tmp/wt5/out/" if grp.startswith("T") else "/tmp/wt4/out/") + grp
     for k in (1, 2, 3):
         md = os.path.join(src, "x%d.md" % k)
         if not os.path.exists(md):
@@ -19,5 +19,5 @@ for grp in sys.argv[1:]:
         os.makedirs(d)
         shutil.copy(os.path.join(src, "x%d.diff" % k), os.path.join(d, "patch.diff"))
         shutil.copy(os.path.join(src, "x%d_demo.py" % k), os.path.join(d, "demo.py"))
-        open(os.path.join(d, "notes.md"), "w").write("(round 3, file-targeted: %s)\n" % grp + open(md).read())
+        open(os.path.join(d, "notes.md"), "w").write(("(round 4, themed: %s)\n" if grp.startswith("T") else "(round 3, file-targeted: %s)\n") % grp + open(md).read())
         print(os.path.basename(d), "<-", grp, "x%d" % k)
